@@ -211,7 +211,10 @@ def impl_grammar(g) -> dict:
             "recursive": sorted(nm(t) for t in g.recursive_prods),
             "nodes": sorted(nm(t) for t in g.all_nodes),
             "mindepth": int(g.get_min_tree_depth()), "expd": bool(g.expansion_depthing),
-            "weights": weights, "wkeys": sorted(weights.keys())}
+            "weights": weights, "wkeys": sorted(weights.keys()),
+            # the table of abstract-layer hops (a defaultdict: counted without looking anything up)
+            "absdist": [len(getattr(g, "abstract_dist_to_t", {})),
+                        sum(len(v) for v in getattr(g, "abstract_dist_to_t", {}).values())]}
 
 
 # ------------------------------------------------------------------------------------------------
